@@ -1,6 +1,7 @@
 package main
 
 import (
+	"os"
 	"sort"
 	"strconv"
 	"fmt"
@@ -241,7 +242,9 @@ func (x *Exec) havocCall(fr *Frame, st *State, c *ssa.CallCommon, callee *ssa.Fu
 					fvs = append(fvs, savedFV{k, pv.T, x.vc.freshDef("keep_"+fv.Name(), x.vc.sortOf(et), fmt.Sprintf("(select %s %s)", x.vc.heapGet(st, k), pv.T))})
 				}
 			}
+			restore := x.keepCapturedAcross(st, c, callee)
 			x.havocAllKeep(st, skip)
+			restore()
 			for _, f := range fvs {
 				st.heap[f.key] = fmt.Sprintf("(store %s %s %s)", x.vc.heapGet(st, f.key), f.ptr, f.val)
 			}
@@ -256,7 +259,14 @@ func (x *Exec) havocCall(fr *Frame, st *State, c *ssa.CallCommon, callee *ssa.Fu
 			x.vc.noteOnce("type-based frame at uncontracted external call " + desc)
 		}
 	} else {
+		// a repository function can run a closure of the function under verification only if
+		// such a closure is reachable for it: when every closure of the enclosing function is
+		// only ever called or handed to a callee that calls it and does not keep it (checked on
+		// the SSA), a callee that is handed no function value cannot run one, so the captured
+		// variables of the closure under verification keep their value
+		restore := x.keepCapturedAcross(st, c, callee)
 		x.havocAllKeep(st, x.closureWritten())
+		restore()
 		x.vc.noteOnce("havoc-all at uncontracted call " + desc)
 	}
 	if resT == nil {
@@ -495,7 +505,9 @@ func (x *Exec) applyContract(fr *Frame, st *State, ct *FuncContract, callee *ssa
 			k = vc.heapKey("H", types.NewSlice(types.NewPointer(t)))
 			savedKeys[k] = vc.heapGet(st, k)
 		}
+		restore := x.keepCapturedAcross(st, c, callee)
 		x.havocAllKeep(st, x.closureWritten())
+		restore()
 		for k, v := range savedKeys {
 			st.heap[k] = v
 		}
@@ -1643,4 +1655,230 @@ func mayReceiveCallback(c *ssa.CallCommon) bool {
 		}
 	}
 	return false
+}
+
+
+// passesFuncValue: is the callee handed a function value (directly as an argument)?
+func passesFuncValue(c *ssa.CallCommon, fam *ssa.Function) bool {
+	root := func(f *ssa.Function) *ssa.Function {
+		for f.Parent() != nil {
+			f = f.Parent()
+		}
+		return f
+	}
+	for _, a := range c.Args {
+		if _, ok := a.Type().Underlying().(*types.Signature); !ok {
+			continue
+		}
+		switch v := a.(type) {
+		case *ssa.Function:
+			if root(v) != root(fam) {
+				continue // a top-level function or a closure-free literal of another function
+			}
+		case *ssa.MakeClosure:
+			if f, ok := v.Fn.(*ssa.Function); ok && root(f) != root(fam) {
+				continue // a closure of another function: it captures none of our variables
+			}
+		}
+		return true
+	}
+	return false
+}
+
+var confinedCache = map[*ssa.Function]bool{}
+
+// closuresConfined: every closure created in the function family of fn (its outermost
+// enclosing function and all functions nested in it) is used only as the callee of a call or
+// as an argument of a static call whose callee - when it is a repository function - only
+// calls that parameter (it does not store it, pass it on or return it).
+func closuresConfined(eng *Engine, fn *ssa.Function) bool {
+	root := fn
+	for root.Parent() != nil {
+		root = root.Parent()
+	}
+	if v, ok := confinedCache[root]; ok {
+		return v
+	}
+	ok := true
+	var walk func(f *ssa.Function)
+	walk = func(f *ssa.Function) {
+		for _, b := range f.Blocks {
+			for _, in := range b.Instrs {
+				mc, isMC := in.(*ssa.MakeClosure)
+				if !isMC {
+					continue
+				}
+				if refs := mc.Referrers(); refs != nil {
+					for _, r := range *refs {
+						if !closureUseConfined(eng, mc, r) {
+							ok = false
+						}
+					}
+				}
+			}
+		}
+		for _, a := range f.AnonFuncs {
+			walk(a)
+		}
+	}
+	walk(root)
+	confinedCache[root] = ok
+	return ok
+}
+
+func closureUseConfined(eng *Engine, v ssa.Value, r ssa.Instruction) bool {
+	switch r := r.(type) {
+	case *ssa.DebugRef:
+		return true
+	case *ssa.Call:
+		return callUseConfined(eng, v, &r.Call)
+	case *ssa.Defer:
+		return callUseConfined(eng, v, &r.Call)
+	}
+	return false
+}
+
+func callUseConfined(eng *Engine, v ssa.Value, c *ssa.CallCommon) bool {
+	if c.IsInvoke() {
+		return false
+	}
+	for k, a := range c.Args {
+		if a != v {
+			continue
+		}
+		callee := c.StaticCallee()
+		if callee == nil {
+			return false
+		}
+		if !eng.isRepoFunc(callee) {
+			continue // dependency callee: assumed to call the function value without keeping it
+		}
+		if k >= len(callee.Params) || !paramOnlyCalled(callee.Params[k]) {
+			return false
+		}
+	}
+	return true
+}
+
+// paramOnlyCalled: the parameter is only called (NaiveForm: it is spilled to a local cell whose
+// loads are only called).
+func paramOnlyCalled(p *ssa.Parameter) bool {
+	refs := p.Referrers()
+	if refs == nil {
+		return true
+	}
+	onlyCalled := func(v ssa.Value) bool {
+		rs := v.Referrers()
+		if rs == nil {
+			return true
+		}
+		for _, r := range *rs {
+			switch r := r.(type) {
+			case *ssa.DebugRef:
+			case *ssa.Call:
+				if r.Call.Value != v {
+					return false
+				}
+				for _, a := range r.Call.Args {
+					if a == v {
+						return false
+					}
+				}
+			default:
+				return false
+			}
+		}
+		return true
+	}
+	for _, r := range *refs {
+		switch r := r.(type) {
+		case *ssa.DebugRef:
+		case *ssa.Call:
+			if r.Call.Value != ssa.Value(p) {
+				return false
+			}
+		case *ssa.Store:
+			al, ok := r.Addr.(*ssa.Alloc)
+			if !ok || r.Val != ssa.Value(p) {
+				return false
+			}
+			ars := al.Referrers()
+			if ars == nil {
+				continue
+			}
+			for _, ar := range *ars {
+				switch ar := ar.(type) {
+				case *ssa.DebugRef:
+				case *ssa.Store:
+					if ar != r {
+						return false
+					}
+				case *ssa.UnOp:
+					if !onlyCalled(ar) {
+						return false
+					}
+				default:
+					return false
+				}
+			}
+		default:
+			return false
+		}
+	}
+	return true
+}
+
+
+// keepCapturedAcross: the values of the variables captured by the closure under verification
+// are saved before a havoc-all and written back by the returned function, when the callee
+// cannot run a closure of the enclosing function (see havocCall).
+func (x *Exec) keepCapturedAcross(st *State, c *ssa.CallCommon, callee *ssa.Function) func() {
+	none := func() {}
+	if os.Getenv("GOVC_DEBUG_KEEP") != "" {
+		fmt.Fprintf(os.Stderr, "keep? at %s callee=%v\n", describeCall(c), callee)
+	}
+	if x.top == nil || len(x.top.fn.FreeVars) == 0 || passesFuncValue(c, x.top.fn) || !closuresConfined(x.eng, x.top.fn) {
+		if os.Getenv("GOVC_DEBUG_KEEP") != "" && x.top != nil && len(x.top.fn.FreeVars) > 0 {
+			fmt.Fprintf(os.Stderr, "keep: none at %s (passesFunc=%v confined=%v)\n", describeCall(c), passesFuncValue(c, x.top.fn), closuresConfined(x.eng, x.top.fn))
+		}
+		return none
+	}
+	root := func(f *ssa.Function) *ssa.Function {
+		for f.Parent() != nil {
+			f = f.Parent()
+		}
+		return f
+	}
+	if callee != nil && root(callee) == root(x.top.fn) {
+		return none // a closure of the same function may write the shared variables
+	}
+	if callee == nil && !c.IsInvoke() {
+		return none // a dynamic call of an unknown function value
+	}
+	type savedFV struct{ key, ptr, val string }
+	var fvs []savedFV
+	for _, fv := range x.top.fn.FreeVars {
+		et := pointee(fv.Type())
+		if et == nil {
+			continue
+		}
+		pv, ok := x.top.regs[fv]
+		if !ok || pv.T == "" {
+			continue
+		}
+		k := x.vc.heapKey("H", et)
+		fvs = append(fvs, savedFV{k, pv.T, x.vc.freshDef("keep_"+fv.Name(), x.vc.sortOf(et), fmt.Sprintf("(select %s %s)", x.vc.heapGet(st, k), pv.T))})
+	}
+	if os.Getenv("GOVC_DEBUG_KEEP") != "" {
+		fmt.Fprintf(os.Stderr, "keep: %d of %d free vars\n", len(fvs), len(x.top.fn.FreeVars))
+	}
+	if len(fvs) == 0 {
+		return none
+	}
+	x.vc.usedAssumed["closures of the enclosing function are only called or handed to callees that call them without keeping them (checked on the SSA; dependency callees assumed): a callee that is handed no function value leaves the captured variables unchanged"] = true
+	return func() {
+		for _, f := range fvs {
+			st.heap[f.key] = fmt.Sprintf("(store %s %s %s)", x.vc.heapGet(st, f.key), f.ptr, f.val)
+		}
+	}
 }
